@@ -37,3 +37,9 @@ pub open spec fn iter_ref_ok<T>(hist: Seq<&T>, idx: int, rem: Seq<&T>, all: Seq<
     rem.len() == all.len() && (forall|i: int| 0 <= i < rem.len() ==> *#[trigger] rem[i] == all[i]) && 0 <= idx <= rem.len() && hist =~= rem.take(idx)
 }
 } // verus!
+verus! {
+// ASSUMED (trusted, listed): a str is determined by its characters (needed for `match` on string-literal patterns, which Verus models
+// as equality of str values)
+#[verifier::external_body]
+pub proof fn axiom_str_ext() ensures forall|a: &str, b: &str| #[trigger] a@ == #[trigger] b@ ==> a == b {}
+} // verus!
